@@ -25,6 +25,7 @@ Call(f, args)    == [k |-> "call", f |-> f, args |-> args]
 Bi(f, args)      == [k |-> "bi", f |-> f, args |-> args]
 
 Re0(re)          == [k |-> "re0", re |-> re]
+MatchFn(e, re)   == [k |-> "matchfn", e |-> e, re |-> re]
 Subst(gl, re, repl, lv) == [k |-> "subst", global |-> gl, re |-> re, repl |-> repl, lv |-> lv]
 
 SExpr(e)         == [k |-> "expr", e |-> e]
